@@ -57,6 +57,7 @@ class RenderContext:
         "env",
         "tag_namespace",
         "loops",
+        "root_globals",
     )
 
     def __init__(
@@ -74,6 +75,12 @@ class RenderContext:
         self.globals = global_data or {}
         self.disabled_tags = disabled_tags or set()
         self.parent = parent
+        # The template's global data, without any namespace added by `copy()`.
+        # Isolated copies (`render`, `call`) are built on top of this, so they
+        # never see variables of the context they were copied from.
+        self.root_globals: Mapping[str, object] = (
+            parent.root_globals if parent else self.globals
+        )
         self._copy_depth = copy_depth
         self.loop_iteration_carry = loop_iteration_carry
         self.local_namespace_carry = local_namespace_carry
@@ -374,7 +381,7 @@ class RenderContext:
         else:
             ctx = self.__class__(
                 template or self.template,
-                global_data=ReadOnlyChainMap(namespace, self.globals),
+                global_data=ReadOnlyChainMap(namespace, self.root_globals),
                 disabled_tags=disabled_tags,
                 copy_depth=self._copy_depth + 1,
                 parent=self,
